@@ -560,8 +560,6 @@ impl Vm {
     }
 
     fn run(&mut self) -> Result<Value, Error> {
-        debug_assert!(self.modules.len() == 1);
-
         loop {
             #[cfg(feature = "verif_hooks")]
             self.verif_on_instruction()?;
